@@ -26,7 +26,7 @@ MANIFEST = dict(
     design_ref="DESIGN.md §4 D10, §5 C10",
     note=core.TB + "String matching / condition evaluation / PE-ELF parsing are parameters of the model; in the tie they are instantiated "
          "with facts computed in Python (literal search, header fields, exefiles.c entry point, md5). Timeouts are forced by an iterator "
-         "that rewinds the scanner's stopwatch (virtual stall), never by real time. Chained strings, fast mode, process-memory mode, "
+         "that rewinds the scanner's stopwatch (virtual stall), never by real time. Chained strings are modelled for chains of plain byte pieces below the match limit (the limit on the unconfirmed lists is not);  "
          "external variables (C20) and profiling are outside the model.")
 
 MAXM = 5
@@ -45,6 +45,35 @@ def rand_text(r, heavy, extra=()):
     if heavy:
         t += b"a" * r.randint(MAXM + 2, MAXM + 6)
     return t + r.choice([b"", b"hello", b"zz"])
+
+
+# chained strings (hex strings split at [-] / a jump >= 200): head, tail and middle pieces are strings of their own
+H1, T1 = bytes.fromhex("aabbccdd"), bytes.fromhex("eeff0011")
+H2, T2 = bytes.fromhex("01020304"), bytes.fromhex("05060708")
+H3, M3, T3 = bytes.fromhex("f1f2f3f4"), bytes.fromhex("e1e2e3e4"), bytes.fromhex("d1d2d3d4")
+CHAINS = [sl.Chain([H1, T1], [(0, None)]), sl.Chain([H2, T2], [(250, 300)]), sl.Chain([H3, M3, T3], [(0, None), (250, 300)])]
+
+
+def chain_inputs(r):
+    """buffers with only heads, only tails, heads and tails at compatible / incompatible distances (filler: '.')"""
+    def buf(items, size):
+        b = bytearray(b"." * size)
+        for off, piece in items:
+            b[off:off + len(piece)] = piece
+        return sl.Input(bytes(b))
+    a = r.randint(0, 20)
+    outs = [
+        buf([(a, H1), (a + 30, H2), (a + 50, H3)], 120),                                        # heads only
+        buf([(a + 5, T1), (a + 300, T2), (a + 40, M3), (a + 330, T3)], 400),                      # tails (and a middle) only
+        buf([(a, H1), (a + r.randint(4, 60), T1)], 100),                                          # [-]: compatible
+        buf([(a + 40, H1), (a, T1)], 100),                                                        # tail BEFORE head
+        buf([(a, H2), (a + 4 + r.choice([250, 275, 300]), T2)], 420),                             # [250-300]: compatible
+        buf([(a, H2), (a + 4 + r.choice([100, 249, 301, 350]), T2)], 420),                        # [250-300]: out of range
+        buf([(a, H3), (a + 20, M3), (a + 24 + r.choice([250, 300]), T3)], 420),                   # three pieces, complete
+        buf([(a, H3), (a + 24 + 260, T3)], 420),                                                  # three pieces, middle missing
+        buf([(a, H1), (a + 10, H1), (a + 40, T1), (a + 60, H2)], 120),                            # two heads, one tail, a stray head
+    ]
+    return r.sample(outs, r.randint(3, 5))
 
 
 def gen_pool(r, bomb=False):
@@ -68,7 +97,7 @@ def gen_pool(r, bomb=False):
     return pool
 
 
-def gen_ruleset(r, pool, bomb=False, pad=None):
+def gen_ruleset(r, pool, bomb=False, pad=None, chains=False):
     """pad: None | 'strings' | 'rules' | 'ns9' | 'ns65' — filler strings / rules / namespaces in FRONT of everything else, so that
     every string / rule / namespace that matters has an index beyond the first word (and byte) of the scanner's bitmaps and arrays"""
     eps = sorted(({sl.entry_point_offset(i.data) for i in pool} | {sl.entry_point_address(i.data, 0) for i in pool}) - {None})
@@ -82,7 +111,7 @@ def gen_ruleset(r, pool, bomb=False, pad=None):
 
     def add(cond, ns=0, flags="", strings=(), filler=False):
         rules.append(dict(ns=ns0[0] + ns, flags=flags, strings=list(strings), cond=cond, filler=filler))
-        nstr[0] += len(strings)
+        nstr[0] += sum(sl.nidx(x) for x in strings)
 
     def sid():
         return nstr[0]
@@ -116,6 +145,10 @@ def gen_ruleset(r, pool, bomb=False, pad=None):
         s_r = sid(); add(("str", s_r), strings=[sl.Rx("w[a-ce-z]{2,4}d")])
     if bomb:
         s_r = sid(); add(("str", s_r), strings=[sl.Bomb()])
+    if chains:
+        for ch in r.sample(CHAINS, r.randint(1, 3)):
+            s_c = sid()
+            add(r.choice([("str", s_c), ("cnt", s_c, 1), ("cnt", s_c, 2), ("in", s_c, 0, 30), ("len", s_c, 1, 8 + r.choice([20, 260, 304]))]), strings=[ch])
     add(("epdef",))
     for e in r.sample(eps, min(4, len(eps))):
         add(("epeq", e))
@@ -279,14 +312,20 @@ def gen_case(r, cid):
         rx_ok = all(count_occ(i.data, s) < MAXM for s in strs if not isinstance(s, bytes) for i in c["inputs"])
         runs_ok = all(sl.Bomb.longest_run(i.data) <= sl.Bomb.SAFE or sl.Bomb.longest_run(i.data) >= sl.Bomb.SURE for i in c["inputs"]) \
             if any(isinstance(s, sl.Bomb) for s in strs) else True
-        if len(heavy) <= 1 and rx_ok and runs_ok:
+        # pieces of chained strings stay below the limit too (the limit on the unconfirmed lists is not modelled)
+        chain_ok = all(count_occ(i.data, strs[k]) < MAXM for k in c["rs"].expected_chain_idx() for i in c["inputs"])
+        if len(heavy) <= 1 and rx_ok and runs_ok and chain_ok:
             return c
 
 
 def gen_case1(r, cid):
     bomb = r.random() < 0.35
+    chains = r.random() < 0.45
     pad = r.choice([None, None, None, "strings", "strings", "rules", "ns9", "ns65"])
     pool = gen_pool(r, bomb)
+    if chains:
+        pool += chain_inputs(r)
+        r.shuffle(pool)
     inputs = list(pool)
     for x in pool:
         if len(x.data) == 5000:
@@ -298,14 +337,24 @@ def gen_case1(r, cid):
             parts = sl.split_parts(r, len(x.data), k)
             avail = [r.random() > 0.08 for _ in parts]
             inputs.append(x.with_parts(parts, avail))
-    inputs = inputs[:10]
-    rs = gen_ruleset(r, pool, bomb, pad)
-    rs.pad, rs.bomb = pad, bomb
+    inputs = inputs[:12]
+    rs = gen_ruleset(r, pool, bomb, pad, chains)
+    rs.pad, rs.bomb, rs.chained = pad, bomb, chains
     # yr_execute_code tests the timeout every 100 instructions: only a rule set that starts and ends with a long loop
     # makes the position of that test unobservable, so only those are combined with a timeout
     timeout = r.choice([0, 1000, 1000]) if rs.has_burn else 0
     flags = r.choice(ALLFLAGS)
     ops = gen_ops(r, inputs, timeout)
+    if chains:
+        # a scan that leaves chain heads pending when it ends, directly followed by one with tails only, on the same scanner
+        hs = [i for i, x in enumerate(inputs) if H1 in x.data or H2 in x.data or H3 in x.data]
+        ts = [i for i, x in enumerate(inputs) if (T1 in x.data or T2 in x.data or T3 in x.data) and H1 not in x.data and H2 not in x.data and H3 not in x.data]
+        if hs and ts:
+            pair = ["S/%d/-/%s/-/0" % (r.choice(hs), r.choice(["-", "-", "a2", "e1"])), "S/%d/-/-/-/0" % r.choice(ts)]
+            k = r.randint(0, len(ops))
+            while 0 < k < len(ops) and ops[k][0] == "C":
+                k += 1
+            ops = (ops[:k] + pair + ops[k:])[:20]
     return dict(id=cid, rs=rs, inputs=inputs, flags=flags, timeout=timeout, ops=ops)
 
 
@@ -358,7 +407,7 @@ def run(tier, replay=None):
                                                   "case": replay["case"] if replay else None}, no_input=not replay)
         found = True
     core.handle_broken_proof(chk, lres, found)
-    chk.assumptions += ["rule sets use plain literal strings and three fixed regexp shapes, no chained strings, no fast mode / process-memory mode",
+    chk.assumptions += ["rule sets use plain literal strings, three fixed regexp shapes and chained hex strings ([-], [250-300], three pieces) whose pieces stay below the match limit",
                         "at most one string per rule set can exceed the match limit in a block (order of TOO_MANY_MATCHES messages between strings is not modelled)",
                         "timeouts are virtual (the iterator rewinds the scanner's stopwatch by 400 s or 2000 s with a 1000 s limit)",
                         "ERROR_TOO_MANY_RE_FIBERS is forced by 5000 x 'c' against /(c{1,40}){1,40}d/ (runs of 7..2999 'c' are never generated)",
@@ -385,7 +434,7 @@ def run_body(chk, lres, b, tier, replay):
         cases += extra
         shapes = {}
         for c in cases:
-            for k in ("pad=%s" % c["rs"].pad, "regexp_fiber_bomb=%s" % c["rs"].bomb):
+            for k in ("pad=%s" % c["rs"].pad, "regexp_fiber_bomb=%s" % c["rs"].bomb, "chained_strings=%s" % getattr(c["rs"], "chained", False)):
                 shapes[k] = shapes.get(k, 0) + 1
         chk.cov["rule_set_shapes"] = shapes
         chk.cov["rule_set_sizes"] = {"max_rules": max(len(c["rs"].rules) for c in cases), "max_strings": max(c["rs"].nstrings for c in cases),
@@ -394,8 +443,25 @@ def run_body(chk, lres, b, tier, replay):
         lines = corpus_lines("C10") + lines_of(cases, variant)
     impl, rc, err = core.run_parallel([b["h_hist"]], lines, timeout=3000)
     if rc != 0 or len(impl) != len(lines):
-        chk.violation("harness_crash.json", {"kind": "harness-crash-or-sanitizer", "rc": rc, "stderr": err, "engine": "hist",
-                                              "harness": "h_hist", "cases": lines[:20]})
+        # find a history that kills the harness on its own, so that the replay file is concrete; the survivors of the
+        # batches that died are run again one by one and take part in the comparisons below
+        done = {l.split(" ", 1)[0] for l in impl}
+        missing = [l for l in lines if l.split(" ", 1)[0] not in done]
+        culprit = None
+        for l in missing[:60]:
+            o1, rc1, err1 = core.run_lines([b["h_hist"]], [l], timeout=400)
+            if rc1 != 0 or not o1:
+                if culprit is None:
+                    culprit = (l, rc1, err1)
+            else:
+                impl.append(o1[0])
+        obj = {"kind": "harness-crash-or-sanitizer", "rc": rc, "stderr": err, "engine": "hist", "harness": "h_hist"}
+        if culprit:
+            obj.update({"case": culprit[0], "rc": culprit[1], "stderr": culprit[2],
+                        "note": "this history alone makes the harness die (sanitizer report / crash in libyara)"})
+        else:
+            obj["cases"] = missing[:20]
+        chk.violation("harness_crash.json", obj)
         found = True
     parsed = {}
     for l in impl:
